@@ -106,3 +106,68 @@ func VerifServe4(c net.PacketConn, handlers []handler.Handler4) error {
 	l := &listener4{PacketConn: ipv4.NewPacketConn(c), handlers: handlers}
 	return l.Serve()
 }
+
+// VerifListener4 is a listener that lives across datagrams, as the one Serve runs on does.
+// Not for concurrent use: what HandleMsg4 captures is collected per listener.
+type VerifListener4 struct {
+	l   *listener4
+	out []Captured4
+}
+
+// VerifNewListener4 builds a listener bound to interface index ifIndex (0 = unbound)
+func VerifNewListener4(ifIndex int) *VerifListener4 {
+	v := &VerifListener4{l: &listener4{}}
+	v.l.Interface.Index = ifIndex
+	verifSlots4.Store(v.l, &v.out)
+	return v
+}
+
+// Handle feeds one datagram to HandleMsg4 of this listener, around handlers (see VerifHandle4)
+func (v *VerifListener4) Handle(handlers []handler.Handler4, datagram []byte, oobIfIndex int, peer net.Addr) []Captured4 {
+	v.out = nil
+	v.l.handlers = handlers
+	var oob *ipv4.ControlMessage
+	if oobIfIndex >= 0 {
+		oob = &ipv4.ControlMessage{IfIndex: oobIfIndex}
+	}
+	b := *bufpool.Get().(*[]byte)
+	b = b[:MaxDatagram]
+	n := copy(b, datagram)
+	v.l.HandleMsg4(b[:n], oob, peer)
+	return v.out
+}
+
+// Close forgets the listener
+func (v *VerifListener4) Close() { verifSlots4.Delete(v.l) }
+
+// VerifListener6 is the DHCPv6 counterpart of VerifListener4
+type VerifListener6 struct {
+	l   *listener6
+	out []Captured6
+}
+
+// VerifNewListener6 builds a DHCPv6 listener bound to interface index ifIndex (0 = unbound)
+func VerifNewListener6(ifIndex int) *VerifListener6 {
+	v := &VerifListener6{l: &listener6{}}
+	v.l.Interface.Index = ifIndex
+	verifSlots6.Store(v.l, &v.out)
+	return v
+}
+
+// Handle feeds one datagram to HandleMsg6 of this listener, around handlers (see VerifHandle6)
+func (v *VerifListener6) Handle(handlers []handler.Handler6, datagram []byte, oobIfIndex int, peer *net.UDPAddr) []Captured6 {
+	v.out = nil
+	v.l.handlers = handlers
+	var oob *ipv6.ControlMessage
+	if oobIfIndex >= 0 {
+		oob = &ipv6.ControlMessage{IfIndex: oobIfIndex}
+	}
+	b := *bufpool.Get().(*[]byte)
+	b = b[:MaxDatagram]
+	n := copy(b, datagram)
+	v.l.HandleMsg6(b[:n], oob, peer)
+	return v.out
+}
+
+// Close forgets the listener
+func (v *VerifListener6) Close() { verifSlots6.Delete(v.l) }
